@@ -116,7 +116,7 @@ func checkC01(c *Ctx, r *Report) {
 				continue
 			}
 			n++
-			res := checkGuarded(m, hp, e.site.Call, g)
+			res := checkGuarded(m, hp, e.site.At, g)
 			key := fmt.Sprintf("handleProduce success entry #%d (%s)", n, e.why)
 			if res.OK {
 				r.ok("C01.R1", key, m.Pos(e.site.Call.Pos()), res.String())
@@ -166,6 +166,27 @@ func checkC01(c *Ctx, r *Report) {
 						r.ok("C01.R2", key, m.Pos(u.Pos()), detail)
 					} else {
 						r.viol("C01.R2", key, m.Pos(u.Pos()), detail)
+					}
+					// … and reports success (a nil constant) only after the upload itself succeeded:
+					// a path that returns nil without uploading commits a segment S3 never got
+					if len(ups) > 0 {
+						for _, b := range cfn.Blocks {
+							ret, ok := b.Instrs[len(b.Instrs)-1].(*ssa.Return)
+							if !ok || len(ret.Results) == 0 {
+								continue
+							}
+							yieldsNil := false
+							for _, o := range origins(ret.Results[len(ret.Results)-1]) {
+								if c, isC := o.(*ssa.Const); isC && c.Value == nil {
+									yieldsNil = true
+								}
+							}
+							if !yieldsNil {
+								continue
+							}
+							guardVerdict(m, r, "C01.R2", "uploadFlush closure reports success only after "+up+" succeeded", cfn, ret,
+								Guard{cl(atomErrNil("~S3Client)."+up))})
+						}
 					}
 				}
 			}
@@ -259,7 +280,7 @@ func errorReturned(m *Module, fn *ssa.Function, c *ssa.Call) (bool, string) {
 				continue
 			}
 			rv := ret.Results[len(ret.Results)-1]
-			for _, o := range origins(rv) {
+			for _, o := range originsAfter(rv, c) {
 				if callOrigin(o) != c {
 					bad = fmt.Sprintf("return at %s yields %s, not the upload error", m.Pos(ret.Pos()), describe(o))
 				}
